@@ -364,6 +364,41 @@ Definition m1c_entry : entry := fun inp =>
   | _ => [-1]
   end.
 
+(** entry (C16, restart freshness): same input.  The history is cut after its last Stop-then-Start; what the endpoint shows
+    for the rest must be what a fresh endpoint (same queue capacity and timeout, same network condition) shows for it.
+    [2]: no restart in the history; [1]: same observations; [0]: they differ. *)
+Definition is_stop (l : lab) : bool := match l with Stop => true | _ => false end.
+Definition is_start (l : lab) : bool := match l with Start => true | _ => false end.
+Fixpoint last_restart (pre : list lab) (ls : list lab) (best : option (list lab * list lab)) : option (list lab * list lab) :=
+  match ls with
+  | a :: ((b :: rest) as tl) =>
+      if is_stop a && is_start b then last_restart (pre ++ [a; b]) rest (Some (pre ++ [a; b], rest))
+      else last_restart (pre ++ [a]) tl best
+  | _ => best
+  end.
+Fixpoint zlist_eqb (a b : list Z) : bool :=
+  match a, b with
+  | [], [] => true
+  | x :: r, y :: t => (x =? y) && zlist_eqb r t
+  | _, _ => false
+  end.
+Definition m1c_fresh_entry : entry := fun inp =>
+  match inp with
+  | v :: capacity :: tmout :: ls =>
+      let labs := dec_labs (length ls) ls in
+      let s0 := init capacity tmout in
+      match last_restart [] labs None with
+      | None => [2]
+      | Some (pre, suf) =>
+          let s1 := qrun pre s0 in
+          let fresh := qrun [NetFail (failw s1); Start] s0 in
+          let a := qrun_obs suf s1 in
+          let b := qrun_obs suf fresh in
+          if existsb (Z.eqb (-7)) a || existsb (Z.eqb (-7)) b then [-7] else [bool_z (zlist_eqb a b)]
+      end
+  | _ => [-1]
+  end.
+
 (** entry: same input; is the schedule that the quiescent semantics executes in the class S0
     (the hypothesis of the S0 theorems), and does it end in a quiescent state? *)
 Definition m1c_h_entry : entry := fun inp =>
